@@ -2,6 +2,7 @@ mod common;
 mod driver;
 mod model;
 mod proj;
+mod tokens;
 mod props;
 
 use driver::{Opts, Tier};
@@ -24,6 +25,9 @@ fn probe(args: &[String]) {
             if !ts && args.iter().any(|a| a == "--proj") {
                 println!("{:#?}", proj::project(generated));
             }
+        }
+        common::Outcome::Err(e) => {
+            println!("ERR {}: {}\nreport: {:?}\n{}", e.variant, e.display, e.report, e.contextualized.join("\n"));
         }
         other => println!("{}", other.brief()),
     }
